@@ -7,6 +7,9 @@ VERIF = os.path.dirname(os.path.dirname(os.path.abspath(__file__)))
 
 # id -> (technique, level text, level note, design ref)
 CHECKS = {
+    "C12": ("counter-equality monitor at quiescent points (Machine.closures / Machine.heap after sample W+N vs W+2N) + handle-validity hooks, over generated closure-heavy programs, shipped sources and mutations",
+            "Each program runs W+2N samples on the VM (and WASM for the record); the numbers of live closures and heap objects after W+N and W+2N samples must be equal, and every retain/release/load/store through a handle that is no longer live, or closure dereference through an invalid key, is flagged by cfg-guarded hooks (slot-map versions decide staleness exactly).",
+            "Steady state within W = N samples; the four recorded leak classes (closure as argument, closure returned from a call, boxed variants, rescheduled tasks) are kept out of general exploration by generator quarantines and a list of shipped files.", "DESIGN.md §3 C12"),
     "C13": ("structural oracle over the values returned by the real tokenize / preparse / parse_cst on exhaustively enumerated lexeme strings, the corpus with all its prefixes/suffixes and token-level mutants, and random Unicode text",
             "Runs the real parser::tokenize, parser::preparse and parser::parse_cst on every string over a ~100-lexeme table up to length 3 (quick) / 4 (thorough) with every separator choice, on every string of parser-structural tokens up to length 5 / 6, on every corpus file with its char-boundary prefixes and suffixes and token-level mutants, and on random Unicode-laden text; for each text it checks on the returned values that the tokens tile the input (contiguous, ordered, char boundaries, final zero-width Eof, concatenation == input), that the GreenNode token leaves are exactly the non-trivia tokens once and in order, and that every trivia token sits in exactly one trivia-map entry of the adjacent syntax token. Exhaustive within the stated bounds, sampled beyond; nothing is modelled.",
             "Trusts the oracle's own trivia classification (4 kinds) and leaf walk; texts on which the code under test panics are counted as undecided (C04's subject). One known finding (file-leading trivia up to a line break is attached to no token) is matched by exact signature.", "DESIGN.md §3 C13"),
